@@ -204,7 +204,26 @@ def run(F, S, R, tier):
         K.order_dom(R, "order/store-before-route", cs, r"ChainService::insert_block$", OB + "process_lonely_block$", what="a block is routed only after it was stored")
         ib = F.need("ckb_chain::chain_service::ChainService::insert_block")
         K.order_dom(R, "order/store-commit", ib, ST + "insert_block$", ST + "commit$", what="block storage is committed")
-        K.mustcall(R, "mustcall/store-commit", ib, [ST + "insert_block$", ST + "commit$"], S, what="insert_block stores and commits on every success path")
+        # F26 (fixed): a hash that is already stored (asked from the header COLUMN, not from the cache) keeps the block it was stored with;
+        # every other success path stores and commits
+        K.mustcall(R, "mustcall/store-commit", ib, [ST + "insert_block$", ST + "commit$"], S, assume=[(r"ChainDB::is_block_stored$", False)],
+                   what="insert_block stores and commits on every success path for a block that is not stored yet")
+        guard = ib.calls_to(r"ChainDB::is_block_stored$")
+        wr = ib.calls_to(ST + "insert_block$")
+        R.sites += len(guard) + len(wr)
+        if not guard:
+            R.bad("order/no-rewrite-of-stored-block", "ChainService::insert_block rewrites the columns of a hash that is already stored: a same-hash copy with other uncle proposals replaces "
+                  "what was (or is being) verified (F26)", [ib.where()])
+        else:
+            cached = [cb.path for c in guard for cb in S.callee_bodies(c) for x in K.with_nested(cb) for blk in x.blocks for st in blk["s"] if "StoreCache" in str(st)]
+            drop = K.assumed_edges(ib, [(r"ChainDB::is_block_stored$", True)])
+            reach, _ = K.reach_with(ib, 0, avoid=set(), drop_edges=drop)
+            if cached:
+                R.bad("order/no-rewrite-of-stored-block", "the already-stored test answers from the store cache (%s): a deleted block that is delivered again would be skipped" % cached[0], [guard[0].where()])
+            elif any(w.bb in reach for w in wr):
+                R.bad("order/no-rewrite-of-stored-block", "insert_block is still reached when the hash is already stored", [wr[0].where()])
+            else:
+                R.ok("order/no-rewrite-of-stored-block", "a stored hash is never written again; the test reads the header column itself, not the cache", [guard[0].where()])
     R.guard("order/pending-before-send", pending)
 
     # 7. retention horizon
@@ -276,3 +295,89 @@ def run(F, S, R, tier):
             else:
                 R.bad("prov/fork-same-hash/" + fn, "%s: the dirty ext and the attached block are not both read by index.hash" % fn, [b.where()])
     R.guard("paired/fork-ends", fork_alignment)
+
+    # 9. EFFECTSITES: who may decide that a block hash is invalid / forget a status / delete a stored block, and how many places do so.
+    # A block hash marked BLOCK_INVALID is refused together with all its descendants until restart: every such site was reviewed to be
+    # reached only for a block that failed verification or whose parent is invalid. An additional site has no lost fact to alarm on.
+    INVALID = r"const:ckb_shared::block_status::BlockStatus::BLOCK_INVALID$"
+    R.guard("effects/mark-invalid", lambda: K.effect_sites(R, "effects/mark-invalid", F, r"ckb_shared::shared::Shared::insert_block_status$", {
+        r"^ckb_chain::chain_service::ChainService::asynchronous_process_block$": (2, "expired-window refusal is not one of them: block number check and failed non-contextual verification"),
+        r"^ckb_chain::verify::ConsumeUnverifiedBlockProcessor::consume_unverified_blocks$": (1, "the block whose verification returned an error (not an internal db error)"),
+        r"^ckb_chain::orphan_broker::OrphanBroker::process_invalid_block$": (1, "a block whose parent is invalid"),
+        r"^ckb_sync::synchronizer::headers_process::HeaderAcceptor::<.*>::accept$": (3, "header on an invalid parent / failing the header verifier / non-contextual header check"),
+        r"^ckb_sync::relayer::compact_block_process::contextual_check": (1, "compact block header on an invalid parent"),
+    }, arg=(2, INVALID), what="who marks a block hash invalid"))
+    R.guard("effects/forget-status", lambda: K.effect_sites(R, "effects/forget-status", F, r"ckb_shared::shared::Shared::remove_block_status$", {
+        r"^ckb_chain::verify::ConsumeUnverifiedBlockProcessor::consume_unverified_blocks$": (2, "after a successful verification (status now comes from the stored ext) and after an internal db error"),
+        r"^ckb_chain::orphan_broker::OrphanBroker::clean_expired_orphans$": (1, "an expired orphan is deleted and may be downloaded again"),
+        r"^ckb_sync::": (9, "sync-side header bookkeeping"),
+        r"^ckb_rpc::": (9, "test / debug rpc"),
+    }, what="who forgets a block status"))
+    R.guard("effects/delete-stored-block", lambda: K.effect_sites(R, "effects/delete-stored-block", F, r"ckb_chain::delete_unverified_block$", {
+        r"^ckb_chain::verify::ConsumeUnverifiedBlockProcessor::consume_unverified_blocks$": (1, "the block that failed verification"),
+        r"^ckb_chain::orphan_broker::OrphanBroker::process_invalid_block$": (1, "a block whose parent is invalid"),
+        r"^ckb_chain::orphan_broker::OrphanBroker::clean_expired_orphans$": (1, "an orphan older than the retention horizon"),
+    }, what="who deletes a stored, unverified block"))
+
+    # 10. F25 (fixed): the status map is keyed by the block hash; the hash commits to the header, the header commits to the body through three
+    # roots. A failed non-contextual check says something about the HASH only if the delivered body is the committed one, and a hash whose block
+    # is stored and verified is never downgraded: otherwise one crafted same-hash twin makes the node refuse the honest block and its descendants.
+    def commitment_guard():
+        ap = F.need("ckb_chain::chain_service::ChainService::asynchronous_process_block")
+        ncv = ap.calls_to(r"ChainService::non_contextual_verify$")
+        marks = [c for c in ap.calls_to(r"Shared::insert_block_status$") if K.src_match(ap.operand_sources(c.args[2]), [INVALID])]
+        after = [c for c in marks if ncv and c.bb in ap.reachable(ncv[0].bb)]
+        R.sites += len(marks) + len(ncv)
+        if not ncv or not after:
+            R.bad("order/invalid-needs-commitment/anchor-lost", "non_contextual_verify / the BLOCK_INVALID mark after it not found in asynchronous_process_block", [ap.where()])
+            return
+
+        def cmp_pairs(bodies):
+            got = set()
+            for x in bodies:
+                for c in x.calls:
+                    if c.callee in K.CMP_CALLS or re.search(r"PartialEq::(eq|ne)$", c.callee):
+                        sa, sb = x.operand_sources(c.args[0]), x.operand_sources(c.args[1])
+                        for nm, plain, calc in (("transactions_root", r"call:.*BlockView::transactions_root$", r"call:.*calc_transactions_root$"),
+                                                ("proposals_hash", r"call:.*BlockView::proposals_hash$", r"call:.*calc_proposals_hash$"),
+                                                ("extra_hash", r"call:.*BlockView::extra_hash$", r"call:.*calc_extra_hash$")):
+                            if (K.src_match(sa, [plain]) and K.src_match(sb, [calc])) or (K.src_match(sb, [plain]) and K.src_match(sa, [calc])):
+                                got.add(nm)
+            return got
+        guards = []
+        for c in ap.calls:
+            if not any(ap.dominates(c.bb, m.bb) and c.bb != m.bb for m in after):
+                continue
+            for cb in S.callee_bodies(c):
+                if cb.crate != "ckb_chain":
+                    continue
+                bs = K.with_nested(cb)
+                got = cmp_pairs(bs)
+                reads_verified = any(re.search(r"BlockExt\.verified$", s_) for x in bs for l in range(len(x.rec.get("locals") or [])) for s_ in x.local_sources(l) if s_.startswith("field:"))
+                if got == {"transactions_root", "proposals_hash", "extra_hash"} and reads_verified:
+                    guards.append(c)
+        if guards and all(any(ap.dominates(g.bb, m.bb) for g in guards) for m in after):
+            R.ok("order/invalid-needs-commitment", "BLOCK_INVALID after a failed non-contextual check is written only behind the test that the body is the one the header commits to "
+                 "(transactions root, proposals hash, extra hash) and that the hash is not stored as verified", [g.where() for g in guards[:2]])
+        else:
+            R.bad("order/invalid-needs-commitment", "asynchronous_process_block marks a hash BLOCK_INVALID on a failed non-contextual check without first testing that the delivered body is the committed one "
+                  "and that the hash is not already verified: a same-hash twin poisons an honest block (F25)", [m.where() for m in after])
+    import re
+    R.guard("order/invalid-needs-commitment", commitment_guard)
+
+    # 11. F27 (fixed): the same hash can be queued twice; when the first copy fails the block is deleted and the second finds nothing to load.
+    # The preload stage must cope with that (answer the callback, drop the entry) instead of panicking - its thread feeds the verify thread.
+    def preload_missing():
+        b = F.one("ckb_chain", r"preload_unverified_blocks_channel::PreloadUnverifiedBlocksChannel::load_full_unverified_block_by_hash$")
+        R.fn(b)
+        gb = b.calls_to(r"ChainStore::get_block$")
+        R.sites += len(gb)
+        if not gb:
+            R.bad("mustcall/preload-missing/anchor-lost", "get_block not found in load_full_unverified_block_by_hash", [b.where()])
+            return
+        bad = [c for c in b.calls if re.search(r"Option::<.*>::(expect|unwrap)$", c.callee) and K.origin_sites(b, c.args[0]) & {gb[0].bb}]
+        if bad:
+            R.bad("mustcall/preload-missing", "a block that was deleted while it waited in the queue panics the preload thread (expect on get_block)", [bad[0].where()])
+        else:
+            R.ok("mustcall/preload-missing", "a queued block that is no longer stored is dropped, not unwrapped", [gb[0].where()])
+    R.guard("mustcall/preload-missing", preload_missing)
